@@ -17,10 +17,11 @@ class Horizon(Exception):
 
 
 # ------------------------------------------------------------------ costs
-def _sphere(x): return float(sum((v - 0.3 * (i + 1)) ** 2 for i, v in enumerate(x)))
+def _sq(d): return d * d   # float multiplication overflows to inf instead of raising
+def _sphere(x): return float(sum(_sq(v - 0.3 * (i + 1)) for i, v in enumerate(x)))
 def _absum(x): return float(sum(abs(v - 0.7 + 0.5 * i) for i, v in enumerate(x)))
-def _illq(x): return float(sum((10.0 ** (2 * i)) * (v - 0.25 * (i + 1)) ** 2 for i, v in enumerate(x)))
-def _steps(x): return float(sum(math.floor(2 * v) ** 2 for v in x))
+def _illq(x): return float(sum((10.0 ** (2 * i)) * _sq(v - 0.25 * (i + 1)) for i, v in enumerate(x)))
+def _steps(x): return float(sum(_sq(float(math.floor(2 * v))) if abs(v) < 1e15 else INF for v in x))
 def _infwall(x): return INF if x[0] > 1.5 else _sphere(x)
 def _flat(x):
     # coordinate 0 is ignored; the rest are pulled together
@@ -83,7 +84,7 @@ class Con(object):
             else: x[0] = min(x[0], 1.0)
         elif k == 'push':
             if len(x) > 1: x[1] = x[0] + 2.0
-            else: x[0] = x[0] + 2.0
+            else: x[0] = max(x[0], 2.5)     # idempotent in one dimension too
         return x
 
     def __call__(self, x):
